@@ -42,3 +42,17 @@ package graphql_datasource
 //@   ensures {nothing.is.removed.when.no.variable.was.undefined} len(undefinedVariables) == 0 ==> result == variables
 //@   modifies *
 //@   safety none
+
+// C15, a variable the client omitted stays omitted - also for subscriptions: the trigger input lists the variables that
+// were rendered as null only because the client left them out ("undefined"); like Source.Load, Start removes them
+// before the request body is built from the input
+//@ func SubscriptionSource.Start
+//@   requires s != nil
+//@   ghost var g_unnulled bool = false
+//@   ghost var g_arr int = 0
+//@   at call? Source.compactAndUnNullVariables: assert {the.trigger.input.is.cleaned} arg1 == input
+//@   at call? Source.compactAndUnNullVariables: ghost g_unnulled = true
+//@   at call? Source.compactAndUnNullVariables: ghost g_arr = arr(result)
+//@   at call json.Unmarshal: assert {undefined.variables.are.removed.before.the.subscription.request.is.built} g_unnulled && arr(arg0) == g_arr
+//@   modifies *, count(*)
+//@   safety none
